@@ -97,6 +97,9 @@ OPTION_DEVS = {
     "co2_const2100_3seasons": lambda s: {**s, "co2": {"constant_conc": True, "current_concentration": 2100.0}, "end": "2004/04/20"},
     "co2_const350_3seasons": lambda s: {**s, "co2": {"constant_conc": True, "current_concentration": 350.0}, "end": "2004/04/20"},
     "co2_table_rising_3seasons": lambda s: {**s, "co2": {"table": [[1990, 360.0], [2001, 500.0], [2002, 545.0], [2003, 556.0], [2004, 700.0], [2050, 2100.0]]}, "end": "2004/04/20"},
+    # CO2 tables that do not cover the first simulated year (the first value holds before the table starts) / end before the last one
+    "co2_table_starts_after_window_opens": lambda s: {**s, "co2": {"table": [[2002, 375.0], [2010, 390.0], [2050, 520.0]]}},
+    "co2_table_ends_before_window_closes": lambda s: {**s, "co2": {"table": [[1990, 350.0], [2001, 371.0]]}, "end": "2004/04/20"},
     "off_season": lambda s: {**s, "off_season": True},
     # every numeric setting passed as a numpy scalar (values read from arrays / DataFrames)
     "numpy_inputs": lambda s: {**s, "numpy_inputs": True},
@@ -121,6 +124,9 @@ WINDOW_DEVS = {
     "three_seasons": lambda s: {**s, "end": "2004/04/20"},
     "no_season": lambda s: {**s, "start": "2001/06/01", "end": "2001/12/30", "crop": {**s["crop"], "planting": "03/01"}},
     "planting_dec31": lambda s: {**s, "start": "2001/12/31", "end": "2003/06/30", "crop": {**s["crop"], "planting": "12/31"}},
+    # a window before the first year of the bundled CO2 record (1959) and one reaching beyond its last year
+    "years_1950s": lambda s: {**s, "start": "1950/05/01", "end": "1952/04/20"},
+    "years_2097_2099": lambda s: {**s, "start": "2097/05/01", "end": "2099/04/20"},
     "planting_jan01": lambda s: {**s, "start": "2002/01/01", "end": "2002/12/30", "crop": {**s["crop"], "planting": "01/01"}},
 }
 
